@@ -187,10 +187,27 @@ class Term:
                 self.state, self.buf, self.string_kind, self.in_payload = "string", [], "DCS", False
             elif a == "\\":
                 self.state = "ground"  # stray ST: harmless
+            elif a == "\x1b":
+                pass  # ESC ESC: still waiting for the introducer
+            elif isinstance(a, str) and a in "\n\r":
+                self.state = "ground"  # C0 controls are executed; the escape sequence continues
+                self._atom(a)
+                self.state = "esc"
+            elif isinstance(a, str) and (" " <= a <= "/"):
+                pass  # intermediate byte
+            elif isinstance(a, str) and ("0" <= a <= "~"):
+                self.state = "ground"  # some two-character escape sequence: no visible effect modelled
             else:
                 raise EngineLimit(f"ESC {a!r}")
         elif st == "csi":
-            if isinstance(a, str) and "@" <= a <= "~":
+            if a == "\x1b":
+                self.state = "esc"  # ESC aborts the sequence and starts a new one
+            elif isinstance(a, str) and a in "\n\r":
+                # C0 controls inside a control sequence are executed; the sequence continues
+                self.state = "ground"
+                self._atom(a)
+                self.state = "csi"
+            elif isinstance(a, str) and "@" <= a <= "~":
                 self.state = "ground"
                 self._csi(self.buf, a)
             elif isinstance(a, str) and (a.isdigit() or a in ";:?>=-"):
@@ -386,7 +403,8 @@ class Term:
         elif kind == "DCS":
             pass
         else:
-            raise EngineLimit(f"{kind} string")
+            # an APC string that is not a (complete) kitty command, e.g. one cut right after ESC _ : ignored by terminals
+            pass
 
     def _kv_num(self, v):
         return self._number(v, signed=True)
@@ -410,6 +428,9 @@ class Term:
     def _kitty(self, keys, payload):
         plen = self._payload_len(payload)
         m = self._kv_num(keys["m"]) if "m" in keys else z3.IntVal(0)
+        if m is None:  # "m=" cut short
+            self.events.append(("malformed kitty key", z3.BoolVal(True)))
+            m = z3.IntVal(0)
         first = "a" in keys or ("m" in keys and self.kitty_pending is None and set(keys) - {"m", "q"})
         act = self._kv_str(keys.get("a", ["T"] if first else []))
         if act == "d":
@@ -446,7 +467,9 @@ class Term:
         c = self._kv_num(keys["c"]) if "c" in keys else None
         r = self._kv_num(keys["r"]) if "r" in keys else None
         if c is None or r is None:
-            raise EngineLimit("kitty placement without c/r")
+            # truncated command: the terminal would size the placement from the pixel data
+            self.events.append(("kitty placement without c/r", z3.BoolVal(True)))
+            return
         C = self._kv_num(keys["C"]) if "C" in keys else z3.IntVal(0)
         self.events.append(("kitty placement moves the cursor (C != 1)", simp(C != 1)))
         self._place("kitty", c, r, keys)
@@ -482,7 +505,8 @@ class Term:
         w = self._kv_num(keys.get("width", []))
         h = self._kv_num(keys.get("height", []))
         if w is None or h is None:
-            raise EngineLimit("iterm2 image without width/height in cells")
+            self.events.append(("iterm2 image without width/height in cells", z3.BoolVal(True)))
+            return
         keys["_payload"] = payload
         keys["_payload_len"] = self._payload_len(payload)
         self.transmissions.append({"keys": keys, "chunks": [(z3.IntVal(0), keys["_payload_len"], payload)]})
